@@ -7,6 +7,12 @@ Open Scope Z_scope.
 (* ================================================================================================ *)
 (** * 0. Utilities *)
 
+Arguments leaf_instances : simpl never.
+Arguments zrange : simpl never.
+Arguments rep_count : simpl never.
+Arguments rep_stride : simpl never.
+Arguments rep_is : simpl never.
+
 (* induction principle for the nested object tree *)
 Fixpoint object_ind' (P : object -> Prop)
   (Hblock : forall c n off rep objs, Forall P objs -> P (OBlock c n off rep objs))
@@ -300,6 +306,18 @@ Proof.
     destruct o; cbn in Hk; try discriminate; inversion Hk; subst; cbn in Hty; cbn in E; rewrite Hty in E; discriminate.
 Qed.
 
+Lemma leaf_instances_in bl path tags lf i :
+  In i (leaf_instances bl path tags lf) ->
+  exists k, 0 <= k < rep_count (lf_rep lf) /\
+    i = {| i_kind := lf_kind lf; i_blocks := bl; i_name := lf_name lf;
+           i_index := if rep_is (lf_rep lf) then Some k else None;
+           i_path := path ++ [{| s_addr := lf_addr lf; s_rep := lf_rep lf; s_idx := k |}];
+           i_allow := lf_allow lf; i_tags := tags ++ lf_tags lf |}.
+Proof.
+  unfold leaf_instances. intros H. apply in_map_iff in H. destruct H as (k & <- & Hk).
+  apply zrange_In in Hk. exists k. split; [assumption|reflexivity].
+Qed.
+
 (* every instance of the spec comes from a register / command / buffer object of the tree *)
 Lemma instance_has_object dev : forall fuel objs bl path tags l i,
   (forall x, In x objs -> In x (flat_map flat dev)) ->
@@ -321,23 +339,421 @@ Proof.
     eapply IH; eauto. }
   destruct (Forall2_in_r _ _ _ HF _ Hr) as (o & Ho & Hcall).
   destruct o as [c n off rep ch|rg|cm|bf|c n ov].
-  - eapply Hblock; eauto. intros x Hx. eapply flat_children; eauto.
-  - inversion Hcall; subst. unfold leaf_instances in Hir. apply in_map_iff in Hir. destruct Hir as (k & <- & _).
+  - cbn beta iota in Hcall. eapply Hblock; [|exact Hcall|exact Hir].
+    intros x Hx. eapply flat_children; [apply Hsub; exact Ho|exact Hx].
+  - injection Hcall as <-. apply leaf_instances_in in Hir. destruct Hir as (k & _ & ->).
     exists (ORegister rg). split; [apply Hsub; assumption|reflexivity].
-  - inversion Hcall; subst. unfold leaf_instances in Hir. apply in_map_iff in Hir. destruct Hir as (k & <- & _).
+  - injection Hcall as <-. apply leaf_instances_in in Hir. destruct Hir as (k & _ & ->).
     exists (OCommand cm). split; [apply Hsub; assumption|reflexivity].
-  - inversion Hcall; subst. unfold leaf_instances in Hir. apply in_map_iff in Hir. destruct Hir as (k & <- & _).
+  - injection Hcall as <-. apply leaf_instances_in in Hir. destruct Hir as (k & _ & ->).
     exists (OBuffer bf). split; [apply Hsub; assumption|reflexivity].
   - destruct ov as [tgt off rep|tgt acc addr allow reset rep|tgt addr allow rep].
     + destruct (search_object tgt dev) as [t|] eqn:Es; [|discriminate].
       destruct t; try discriminate. apply search_object_in in Es. destruct Es as [Es _].
-      eapply Hblock; eauto. intros x Hx. eapply flat_children; eauto.
+      eapply Hblock; [|exact Hcall|exact Hir]. intros x Hx. eapply flat_children; [exact Es|exact Hx].
     + destruct (search_object tgt dev) as [t|] eqn:Es; [|discriminate].
       destruct t; try discriminate. apply search_object_in in Es. destruct Es as [Es _].
-      inversion Hcall; subst. unfold leaf_instances in Hir. apply in_map_iff in Hir. destruct Hir as (k & <- & _).
+      injection Hcall as <-. apply leaf_instances_in in Hir. destruct Hir as (k & _ & ->).
       exists (ORegister r0). split; [assumption|reflexivity].
     + destruct (search_object tgt dev) as [t|] eqn:Es; [|discriminate].
       destruct t; try discriminate. apply search_object_in in Es. destruct Es as [Es _].
-      inversion Hcall; subst. unfold leaf_instances in Hir. apply in_map_iff in Hir. destruct Hir as (k & <- & _).
+      injection Hcall as <-. apply leaf_instances_in in Hir. destruct Hir as (k & _ & ->).
       exists (OCommand c0). split; [assumption|reflexivity].
+Qed.
+
+(* ================================================================================================ *)
+(** * 3. find_min_max_addresses: the stack walk equals the structural recursion *)
+
+Definition visit (filter : object -> bool) (S : Z) (o : object) (acc : Z * Z) : Z * Z :=
+  if filter o then
+    match object_address o with
+    | None => acc
+    | Some a =>
+        let c0 := S + a in
+        let cm := c0 + Z.max (rep_count (object_repeat o) - 1) 0 * rep_stride (object_repeat o) in
+        (Z.min (Z.min (fst acc) c0) cm, Z.max (Z.max (snd acc) c0) cm)
+    end
+  else acc.
+
+(* the natural recursion: [S] = sum of the enclosing blocks' offsets *)
+Fixpoint mm_struct (filter : object -> bool) (S : Z) (o : object) (acc : Z * Z) {struct o} : Z * Z :=
+  let acc1 := visit filter S o acc in
+  match o with
+  | OBlock _ _ off _ objs =>
+      (fix go (l : list object) (a : Z * Z) : Z * Z :=
+         match l with [] => a | x :: t => go t (mm_struct filter (S + off) x a) end) objs acc1
+  | _ => acc1
+  end.
+
+Definition mm_struct_list (filter : object -> bool) (S : Z) (objs : list object) (acc : Z * Z) : Z * Z :=
+  fold_left (fun a x => mm_struct filter S x a) objs acc.
+
+Lemma mm_struct_block filter S c n off rep objs acc :
+  mm_struct filter S (OBlock c n off rep objs) acc =
+  mm_struct_list filter (S + off) objs (visit filter S (OBlock c n off rep objs) acc).
+Proof.
+  cbn [mm_struct]. unfold mm_struct_list. generalize (visit filter S (OBlock c n off rep objs) acc).
+  induction objs as [|x t IH]; intros a; cbn; [reflexivity|apply IH].
+Qed.
+
+Definition filter_blocks (filter : object -> bool) : Prop :=
+  forall c n off rep objs, filter (OBlock c n off rep objs) = true.
+
+Definition proj (st : mm_state) : Z * Z := (mm_min st, mm_max st).
+
+Definition at_depth (d : nat) (S : list Z) (st : mm_state) : Prop :=
+  exists extra, mm_offsets st = (extra ++ S)%list /\ mm_last_depth st = (d + List.length extra)%nat.
+
+Lemma mm_pop_spec : forall k st extra S d,
+  mm_offsets st = (extra ++ S)%list -> List.length extra = k -> mm_last_depth st = (d + k)%nat ->
+  mm_offsets (mm_pop k st) = S /\ mm_last_depth (mm_pop k st) = d /\ proj (mm_pop k st) = proj st.
+Proof.
+  induction k as [|k IH]; intros st extra S d Ho Hl Hd.
+  - destruct extra; [|discriminate]. cbn in *. repeat split; auto. lia.
+  - destruct extra as [|x extra]; [discriminate|]. cbn [mm_pop]. rewrite Ho. cbn [app tl].
+    cbn in Hl.
+    destruct (IH {| mm_min := mm_min st; mm_max := mm_max st; mm_last_depth := Nat.pred (mm_last_depth st);
+                    mm_offsets := (extra ++ S)%list; mm_ok := mm_ok st |} extra S d) as (H1 & H2 & H3);
+      [reflexivity|lia|cbn; lia|].
+    repeat split; [exact H1|exact H2|exact H3].
+Qed.
+
+Lemma mm_step_spec filter d S st o :
+  filter_blocks filter -> at_depth d S st ->
+  let st' := mm_step filter st (o, d) in
+  proj st' = visit filter (zsum S) o (proj st) /\
+  match o with
+  | OBlock _ _ off _ _ => mm_offsets st' = off :: S /\ mm_last_depth st' = Datatypes.S d
+  | _ => mm_offsets st' = S /\ mm_last_depth st' = d
+  end.
+Proof.
+  intros Hfb (extra & Ho & Hd). cbn zeta. unfold mm_step.
+  replace (mm_last_depth st - d)%nat with (List.length extra) by lia.
+  destruct (mm_pop_spec (List.length extra) st extra S d Ho eq_refl Hd) as (P1 & P2 & P3).
+  set (st1 := mm_pop (List.length extra) st) in *.
+  unfold visit. destruct (filter o) eqn:Ef; cbn [negb].
+  - destruct (object_address o) as [a|] eqn:Ea.
+    + destruct o; cbn; rewrite ?P1, ?P2; unfold proj in *; inversion P3; split; auto; try (rewrite H0, H1; reflexivity).
+    + destruct o; cbn; rewrite ?P1, ?P2; split; auto; discriminate.
+  - destruct o; try (split; [exact P3|split; assumption]).
+    rewrite Hfb in Ef. discriminate.
+Qed.
+
+Lemma walk_obj filter (Hfb : filter_blocks filter) o : forall d S st,
+  at_depth d S st ->
+  at_depth d S (fold_left (mm_step filter) (flatten_depth d o) st) /\
+  proj (fold_left (mm_step filter) (flatten_depth d o) st) = mm_struct filter (zsum S) o (proj st).
+Proof.
+  induction o using object_ind'; intros d S st Hat;
+    try (match goal with |- context [flatten_depth d ?o] =>
+           destruct (mm_step_spec filter d S st o Hfb Hat) as (Hp & Hrest) end;
+         cbn [flatten_depth fold_left mm_struct]; cbn beta iota zeta in Hrest;
+         destruct Hrest as (Ho & Hd);
+         split; [exists []; split; [exact Ho|rewrite Hd; cbn; lia]|exact Hp]).
+  rename H into IHch.
+  rewrite mm_struct_block.
+  cbn [flatten_depth fold_left].
+  destruct (mm_step_spec filter d S st (OBlock c n off rep objs) Hfb Hat) as (Hp & Ho & Hd).
+  set (st1 := mm_step filter st (OBlock c n off rep objs, d)) in *. clearbody st1.
+  rewrite <- Hp.
+  assert (Hat1 : at_depth (Datatypes.S d) (off :: S) st1) by (exists []; split; [exact Ho|rewrite Hd; cbn; lia]).
+  replace (zsum S + off) with (zsum (off :: S)) by (unfold zsum; cbn [fold_right]; lia).
+  clear Hp Ho Hd Hat st.
+  assert (Hlist : at_depth (Datatypes.S d) (off :: S) (fold_left (mm_step filter) (flat_map (flatten_depth (Datatypes.S d)) objs) st1) /\
+                  proj (fold_left (mm_step filter) (flat_map (flatten_depth (Datatypes.S d)) objs) st1) =
+                  mm_struct_list filter (zsum (off :: S)) objs (proj st1)).
+  { revert st1 Hat1. induction IHch as [|x t Hx Ht IHt]; intros st1 Hat1; cbn [flat_map].
+    - split; [assumption|reflexivity].
+    - rewrite fold_left_app. destruct (Hx (Datatypes.S d) (off :: S) st1 Hat1) as (A1 & A2).
+      destruct (IHt _ A1) as (B1 & B2). split; [assumption|].
+      rewrite B2, A2. reflexivity. }
+  destruct Hlist as ((extra & E1 & E2) & Hpr). split; [|exact Hpr].
+  exists (extra ++ [off])%list. rewrite <- app_assoc. cbn. split; [assumption|]. rewrite app_length. cbn. lia.
+Qed.
+
+Lemma walk_struct filter objs :
+  filter_blocks filter ->
+  find_min_max_addresses filter objs = mm_struct_list filter 0 objs (0, 0).
+Proof.
+  intros Hfb. unfold find_min_max_addresses, mm_walk, preorder.
+  assert (H : forall st, at_depth 0 [] st ->
+            at_depth 0 [] (fold_left (mm_step filter) (flat_map (flatten_depth 0) objs) st) /\
+            proj (fold_left (mm_step filter) (flat_map (flatten_depth 0) objs) st) = mm_struct_list filter 0 objs (proj st)).
+  { induction objs as [|x t IH]; intros st Hat; cbn [flat_map].
+    - split; [assumption|reflexivity].
+    - rewrite fold_left_app. destruct (walk_obj filter Hfb x 0%nat [] st Hat) as (A1 & A2).
+      destruct (IH _ A1) as (B1 & B2). split; [assumption|]. rewrite B2, A2. reflexivity. }
+  destruct (H mm_init) as (_ & Hp); [exists []; split; reflexivity|]. exact Hp.
+Qed.
+
+Lemma filter_all_blocks : filter_blocks filter_all.
+Proof. intros c n off rep objs; reflexivity. Qed.
+Lemma filter_kind_blocks k : filter_blocks (filter_kind k).
+Proof. intros c n off rep objs; destruct k; reflexivity. Qed.
+
+(* ================================================================================================ *)
+(** * 4. Every untagged instance lies between the walk's minimum and maximum *)
+
+Definition within (acc : Z * Z) (z : Z) : Prop := fst acc <= z <= snd acc.
+Definition le_acc (a b : Z * Z) : Prop := fst b <= fst a /\ snd a <= snd b.
+
+Lemma le_acc_refl a : le_acc a a.
+Proof. unfold le_acc; lia. Qed.
+Lemma le_acc_trans a b c : le_acc a b -> le_acc b c -> le_acc a c.
+Proof. unfold le_acc; lia. Qed.
+Lemma within_mono a b z : within a z -> le_acc a b -> within b z.
+Proof. unfold within, le_acc; lia. Qed.
+
+Lemma visit_mono filter S o acc : le_acc acc (visit filter S o acc).
+Proof.
+  unfold visit. destruct (filter o); [|apply le_acc_refl].
+  destruct (object_address o); [|apply le_acc_refl]. unfold le_acc; cbn. lia.
+Qed.
+
+Lemma mm_struct_mono filter o : forall S acc, le_acc acc (mm_struct filter S o acc).
+Proof.
+  induction o using object_ind'; intros S acc; try (cbn [mm_struct]; apply visit_mono).
+  rewrite mm_struct_block. apply le_acc_trans with (visit filter S (OBlock c n off rep objs) acc); [apply visit_mono|].
+  generalize (visit filter S (OBlock c n off rep objs) acc). unfold mm_struct_list.
+  induction H as [|x t Hx Ht IH]; intros a; cbn [fold_left]; [apply le_acc_refl|].
+  apply le_acc_trans with (mm_struct filter (S + off) x a); [apply Hx|apply IH].
+Qed.
+
+Lemma mm_struct_list_mono filter S objs acc : le_acc acc (mm_struct_list filter S objs acc).
+Proof.
+  unfold mm_struct_list. revert acc. induction objs as [|x t IH]; intros acc; cbn [fold_left]; [apply le_acc_refl|].
+  apply le_acc_trans with (mm_struct filter S x acc); [apply mm_struct_mono|apply IH].
+Qed.
+
+Lemma visit_within filter S o acc a k :
+  filter o = true -> object_address o = Some a -> 0 <= k < rep_count (object_repeat o) ->
+  within (visit filter S o acc) (S + a + k * rep_stride (object_repeat o)).
+Proof.
+  intros Hf Ha Hk. unfold visit. rewrite Hf, Ha. unfold within. cbn [fst snd].
+  set (c := rep_count (object_repeat o)) in *. set (s := rep_stride (object_repeat o)) in *.
+  replace (Z.max (c - 1) 0) with (c - 1) by lia.
+  assert (Hl : (0 <= k * s <= (c - 1) * s) \/ ((c - 1) * s <= k * s <= 0)) by nia.
+  lia.
+Qed.
+
+Lemma visit_within0 filter S o acc a :
+  filter o = true -> object_address o = Some a -> within (visit filter S o acc) (S + a).
+Proof.
+  intros Hf Ha. unfold visit. rewrite Hf, Ha. unfold within. cbn [fst snd]. lia.
+Qed.
+
+(* tags *)
+Definition clean (ts : list tag) : Prop := forall t, In t ts -> t = TOwnFlag.
+
+Lemma tag_eqb_eq a b : tag_eqb a b = true <-> a = b.
+Proof. destruct a, b; cbn; split; congruence. Qed.
+
+Lemma untagged_clean i : untagged i = true <-> clean (i_tags i).
+Proof.
+  unfold untagged, c13_tags, clean. generalize (i_tags i) as ts.
+  induction ts as [|t ts IH]; cbn.
+  - split; [tauto|reflexivity].
+  - destruct (tag_eqb t TOwnFlag) eqn:E; cbn.
+    + rewrite IH. apply tag_eqb_eq in E. subst. split; [intros H x [<-|Hx]; auto|intros H x Hx; apply H; auto].
+    + split; [discriminate|]. intros H. specialize (H t (or_introl eq_refl)). apply tag_eqb_eq in H. congruence.
+Qed.
+
+Lemma clean_app a b : clean (a ++ b) <-> clean a /\ clean b.
+Proof.
+  unfold clean. split.
+  - intros H; split; intros t Ht; apply H; apply in_or_app; auto.
+  - intros [Ha Hb] t Ht. apply in_app_or in Ht. destruct Ht; auto.
+Qed.
+
+Lemma clean_opt_tag b t : t <> TOwnFlag -> clean (opt_tag b t) -> b = false.
+Proof. destruct b; [|reflexivity]. intros Hne H. exfalso. apply Hne. apply H. left. reflexivity. Qed.
+
+(* one object of instances_objs, with the recursive calls abstracted *)
+Definition block_inst (rec : list object -> list (string * Z) -> list step -> list tag -> outcome (list instance))
+           (bl : list (string * Z)) (path : list step) (name : string) (off : Z) (rep : option repeat)
+           (children : list object) (tags' : list tag) : outcome (list instance) :=
+  ocat (map (fun i => rec children (bl ++ [(name, i)])
+                        (path ++ [{| s_addr := off; s_rep := rep; s_idx := i |}])
+                        (tags' ++ opt_tag (rep_is rep) TRepBlock))
+            (zrange (rep_count rep))).
+
+Definition inst_one (rec : list object -> list (string * Z) -> list step -> list tag -> outcome (list instance))
+           (dev : list object) (bl : list (string * Z)) (path : list step) (tags : list tag) (o : object)
+  : outcome (list instance) :=
+  match o with
+  | ORegister r =>
+      Ok (leaf_instances bl path tags
+            {| lf_kind := KRegister; lf_name := rg_name r; lf_addr := rg_address r; lf_rep := rg_repeat r;
+               lf_allow := rg_allow_address_overlap r; lf_tags := [] |})
+  | OCommand c =>
+      Ok (leaf_instances bl path tags
+            {| lf_kind := KCommand; lf_name := cm_name c; lf_addr := cm_address c; lf_rep := cm_repeat c;
+               lf_allow := cm_allow_address_overlap c; lf_tags := [] |})
+  | OBuffer b =>
+      Ok (leaf_instances bl path tags
+            {| lf_kind := KBuffer; lf_name := bf_name b; lf_addr := bf_address b; lf_rep := None;
+               lf_allow := false; lf_tags := [] |})
+  | OBlock _ name off rep children => block_inst rec bl path name off rep children tags
+  | ORef _ name (OvRegister tgt _ addr allow _ rep) =>
+      match search_object tgt dev with
+      | Some (ORegister r) =>
+          Ok (leaf_instances bl path tags
+                {| lf_kind := KRegister; lf_name := name; lf_addr := or_else addr (rg_address r);
+                   lf_rep := or_else_opt rep (rg_repeat r);
+                   lf_allow := rg_allow_address_overlap r || allow;
+                   lf_tags := opt_tag (is_none addr) TRefNoAddr
+                              ++ opt_tag (is_none rep && rep_is (rg_repeat r)) TRefKeepsRepeat
+                              ++ opt_tag allow TOwnFlag |})
+      | _ => Fail AssertFail
+      end
+  | ORef _ name (OvCommand tgt addr allow rep) =>
+      match search_object tgt dev with
+      | Some (OCommand c) =>
+          Ok (leaf_instances bl path tags
+                {| lf_kind := KCommand; lf_name := name; lf_addr := or_else addr (cm_address c);
+                   lf_rep := or_else_opt rep (cm_repeat c);
+                   lf_allow := cm_allow_address_overlap c || allow;
+                   lf_tags := opt_tag (is_none addr) TRefNoAddr
+                              ++ opt_tag (is_none rep && rep_is (cm_repeat c)) TRefKeepsRepeat
+                              ++ opt_tag allow TOwnFlag |})
+      | _ => Fail AssertFail
+      end
+  | ORef _ _ (OvBlock tgt off rep) =>
+      match search_object tgt dev with
+      | Some (OBlock _ tname toff trep children) =>
+          block_inst rec bl path tname (or_else off toff) (or_else_opt rep trep) children (tags ++ [TBlockRef])
+      | _ => Fail AssertFail
+      end
+  end.
+
+Lemma instances_objs_S f dev objs bl path tags :
+  instances_objs (S f) dev objs bl path tags = ocat (map (inst_one (instances_objs f dev) dev bl path tags) objs).
+Proof. reflexivity. Qed.
+
+Lemma block_inst_in rec bl path name off rep ch tg r i :
+  block_inst rec bl path name off rep ch tg = Ok r -> In i r ->
+  exists k r1, 0 <= k < rep_count rep /\
+    rec ch (bl ++ [(name, k)]) (path ++ [{| s_addr := off; s_rep := rep; s_idx := k |}])
+        (tg ++ opt_tag (rep_is rep) TRepBlock) = Ok r1 /\ In i r1.
+Proof.
+  unfold block_inst. intros H Hi. apply ocat_map_ok in H. destruct H as (rs & HF & ->).
+  apply in_concat in Hi. destruct Hi as (r1 & Hr1 & Hi).
+  destruct (Forall2_in_r _ _ _ HF _ Hr1) as (k & Hk & Hcall). apply zrange_In in Hk.
+  exists k, r1. auto.
+Qed.
+
+(* the context tags are a prefix of every instance's tags *)
+Lemma tags_prefix dev : forall fuel objs bl path tags l i,
+  instances_objs fuel dev objs bl path tags = Ok l -> In i l -> exists rest, i_tags i = (tags ++ rest)%list.
+Proof.
+  induction fuel as [|f IH]; intros objs bl path tags l i H Hi; [discriminate|].
+  rewrite instances_objs_S in H. apply ocat_map_ok in H. destruct H as (rs & HF & ->).
+  apply in_concat in Hi. destruct Hi as (r & Hr & Hi).
+  destruct (Forall2_in_r _ _ _ HF _ Hr) as (o & Ho & Hcall).
+  assert (Hblock : forall name off rep ch tg, block_inst (instances_objs f dev) bl path name off rep ch tg = Ok r ->
+                     exists rest, i_tags i = (tg ++ rest)%list).
+  { intros name off rep ch tg Hb. destruct (block_inst_in _ _ _ _ _ _ _ _ _ _ Hb Hi) as (k & r1 & _ & Hrec & Hi1).
+    destruct (IH _ _ _ _ _ _ Hrec Hi1) as (rest & ->). rewrite <- app_assoc. eauto. }
+  destruct o as [c n off rep ch|rg|cm|bf|c n ov]; cbn [inst_one] in Hcall.
+  - eauto.
+  - injection Hcall as <-. apply leaf_instances_in in Hi. destruct Hi as (k & _ & ->). cbn. eauto.
+  - injection Hcall as <-. apply leaf_instances_in in Hi. destruct Hi as (k & _ & ->). cbn. eauto.
+  - injection Hcall as <-. apply leaf_instances_in in Hi. destruct Hi as (k & _ & ->). cbn. eauto.
+  - destruct ov as [tgt off rep|tgt acc addr allow reset rep|tgt addr allow rep];
+      (destruct (search_object _ dev) as [t|]; [|discriminate]); destruct t; try discriminate.
+    + destruct (Hblock _ _ _ _ _ Hcall) as (rest & ->). rewrite <- app_assoc. eauto.
+    + injection Hcall as <-. apply leaf_instances_in in Hi. destruct Hi as (k & _ & ->). cbn. eauto.
+    + injection Hcall as <-. apply leaf_instances_in in Hi. destruct Hi as (k & _ & ->). cbn. eauto.
+Qed.
+
+Lemma zsum_app a b : zsum (a ++ b) = zsum a + zsum b.
+Proof. induction a as [|x t IH]; cbn; [reflexivity|]. rewrite IH. lia. Qed.
+
+Lemma addr_sem_app p s : addr_sem (p ++ [s]) = addr_sem p + step_sem s.
+Proof. unfold addr_sem. rewrite map_app, zsum_app. cbn. lia. Qed.
+
+(* a filter at least as permissive as the walk of the instance's kind *)
+Definition filter_covers (filter : object -> bool) (k : akind) : Prop :=
+  forall o, filter_kind k o = true -> filter o = true.
+
+Lemma inst_bounded dev filter (Hfb : filter_blocks filter) : forall fuel objs bl path tags l i,
+  instances_objs fuel dev objs bl path tags = Ok l -> In i l -> clean (i_tags i) ->
+  filter_covers filter (i_kind i) ->
+  forall acc, within (mm_struct_list filter (addr_sem path) objs acc) (i_addr i).
+Proof.
+  induction fuel as [|f IH]; intros objs bl path tags l i H Hi Hcl Hcov; [discriminate|].
+  rewrite instances_objs_S in H.
+  (* one object *)
+  assert (Hone : forall o a acc, inst_one (instances_objs f dev) dev bl path tags o = Ok a -> In i a ->
+                   within (mm_struct filter (addr_sem path) o acc) (i_addr i)).
+  { intros o a acc Ho Hia.
+    assert (Hleaf : forall lf, In i (leaf_instances bl path tags lf) ->
+              filter o = true -> object_address o = Some (lf_addr lf) ->
+              (rep_count (object_repeat o) = rep_count (lf_rep lf) /\ rep_stride (object_repeat o) = rep_stride (lf_rep lf)) ->
+              within (visit filter (addr_sem path) o acc) (i_addr i)).
+    { intros lf Hin Hf Ha (Hc & Hs). apply leaf_instances_in in Hin. destruct Hin as (k & Hk & ->).
+      unfold i_addr. cbn [i_path]. rewrite addr_sem_app. unfold step_sem. cbn [s_addr s_idx s_rep].
+      rewrite <- Hs, Z.add_assoc. apply visit_within; auto. rewrite Hc. assumption. }
+    destruct o as [c n off rep ch|rg|cm|bf|c n ov]; cbn [inst_one] in Ho.
+    - (* block *)
+      destruct (block_inst_in _ _ _ _ _ _ _ _ _ _ Ho Hia) as (k & r1 & Hk & Hrec & Hi1).
+      destruct (tags_prefix _ _ _ _ _ _ _ _ Hrec Hi1) as (rest & Ht).
+      assert (Hrep : rep = None).
+      { pose proof Hcl as Hc. rewrite Ht in Hc. apply clean_app in Hc. destruct Hc as [Hc _].
+        apply clean_app in Hc. destruct Hc as [_ Hc]. apply clean_opt_tag in Hc; [|discriminate].
+        destruct rep; [discriminate|reflexivity]. }
+      subst rep. assert (k = 0) by (unfold rep_count in Hk; lia). subst k.
+      rewrite mm_struct_block.
+      pose proof (IH _ _ _ _ _ _ Hrec Hi1 Hcl Hcov) as Hb. rewrite addr_sem_app in Hb.
+      unfold step_sem in Hb. cbn [s_addr s_idx s_rep] in Hb. unfold rep_stride in Hb.
+      replace (addr_sem path + (off + 0 * 0)) with (addr_sem path + off) in Hb by lia. apply Hb.
+    - injection Ho as <-. eapply Hleaf; [exact Hia| | reflexivity | split; reflexivity].
+      apply leaf_instances_in in Hia. destruct Hia as (k & _ & ->). apply Hcov. reflexivity.
+    - injection Ho as <-. eapply Hleaf; [exact Hia| | reflexivity | split; reflexivity].
+      apply leaf_instances_in in Hia. destruct Hia as (k & _ & ->). apply Hcov. reflexivity.
+    - injection Ho as <-. eapply Hleaf; [exact Hia| | reflexivity | split; reflexivity].
+      apply leaf_instances_in in Hia. destruct Hia as (k & _ & ->). apply Hcov. reflexivity.
+    - destruct ov as [tgt off rep|tgt acc0 addr allow reset rep|tgt addr allow rep];
+        (destruct (search_object _ dev) as [t|]; [|discriminate]); destruct t; try discriminate.
+      + (* block ref: tagged *)
+        destruct (block_inst_in _ _ _ _ _ _ _ _ _ _ Ho Hia) as (k & r1 & Hk & Hrec & Hi1).
+        destruct (tags_prefix _ _ _ _ _ _ _ _ Hrec Hi1) as (rest & Ht).
+        exfalso. rewrite Ht in Hcl. apply clean_app in Hcl. destruct Hcl as [Hc _].
+        apply clean_app in Hc. destruct Hc as [Hc _]. apply clean_app in Hc. destruct Hc as [_ Hc].
+        specialize (Hc TBlockRef (or_introl eq_refl)). discriminate.
+      + injection Ho as <-. pose proof Hia as Hia'. apply leaf_instances_in in Hia'. destruct Hia' as (k & _ & Hi').
+        assert (Hc : clean (lf_tags {| lf_kind := KRegister; lf_name := n; lf_addr := or_else addr (rg_address r);
+                   lf_rep := or_else_opt rep (rg_repeat r); lf_allow := rg_allow_address_overlap r || allow;
+                   lf_tags := opt_tag (is_none addr) TRefNoAddr
+                              ++ opt_tag (is_none rep && rep_is (rg_repeat r)) TRefKeepsRepeat
+                              ++ opt_tag allow TOwnFlag |})).
+        { rewrite Hi' in Hcl. cbn [i_tags] in Hcl. apply clean_app in Hcl. apply Hcl. }
+        cbn [lf_tags] in Hc. apply clean_app in Hc. destruct Hc as [Hc1 Hc]. apply clean_app in Hc. destruct Hc as [Hc2 _].
+        apply clean_opt_tag in Hc1; [|discriminate]. apply clean_opt_tag in Hc2; [|discriminate].
+        destruct addr as [a0|]; [|discriminate].
+        eapply Hleaf; [exact Hia| | reflexivity | ].
+        * rewrite Hi'. apply Hcov. reflexivity.
+        * cbn [lf_rep object_repeat]. destruct rep as [rp|]; [split; reflexivity|].
+          cbn in Hc2. destruct (rg_repeat r); [discriminate|]. split; reflexivity.
+      + injection Ho as <-. pose proof Hia as Hia'. apply leaf_instances_in in Hia'. destruct Hia' as (k & _ & Hi').
+        assert (Hc : clean (lf_tags {| lf_kind := KCommand; lf_name := n; lf_addr := or_else addr (cm_address c0);
+                   lf_rep := or_else_opt rep (cm_repeat c0); lf_allow := cm_allow_address_overlap c0 || allow;
+                   lf_tags := opt_tag (is_none addr) TRefNoAddr
+                              ++ opt_tag (is_none rep && rep_is (cm_repeat c0)) TRefKeepsRepeat
+                              ++ opt_tag allow TOwnFlag |})).
+        { rewrite Hi' in Hcl. cbn [i_tags] in Hcl. apply clean_app in Hcl. apply Hcl. }
+        cbn [lf_tags] in Hc. apply clean_app in Hc. destruct Hc as [Hc1 Hc]. apply clean_app in Hc. destruct Hc as [Hc2 _].
+        apply clean_opt_tag in Hc1; [|discriminate]. apply clean_opt_tag in Hc2; [|discriminate].
+        destruct addr as [a0|]; [|discriminate].
+        eapply Hleaf; [exact Hia| | reflexivity | ].
+        * rewrite Hi'. apply Hcov. reflexivity.
+        * cbn [lf_rep object_repeat]. destruct rep as [rp|]; [split; reflexivity|].
+          cbn in Hc2. destruct (cm_repeat c0); [discriminate|]. split; reflexivity. }
+  (* the list *)
+  revert l H Hi. induction objs as [|o t IHt]; intros l H Hi acc.
+  - cbn in H. injection H as <-. destruct Hi.
+  - cbn [map] in H. apply ocat_cons_ok in H. destruct H as (a & b & Ha & Hb & ->).
+    unfold mm_struct_list. cbn [fold_left]. apply in_app_or in Hi. destruct Hi as [Hi|Hi].
+    + eapply within_mono; [eapply Hone; eauto|]. apply (mm_struct_list_mono filter (addr_sem path) t).
+    + apply (IHt b Hb Hi).
 Qed.
